@@ -37,7 +37,7 @@ fn small_go(rng: &mut Rng, dense: bool) -> Limits {
 // SWEEP_QUICK scripts are swept by the quick tier, all of them by the thorough tier.
 
 pub const SWEEP_SPAN: u64 = 2048;
-pub const SWEEP_QUICK: u64 = 9;
+pub const SWEEP_QUICK: u64 = 12;
 const SWEEP_POSITIONS: [&str; 3] = [
     "position startpos",
     "position fen r1bqkb1r/pppp1ppp/2n2n2/4p2Q/2B1P3/8/PPPP1PPP/RNB1K1NR b KQkq - 4 4",
@@ -59,6 +59,12 @@ fn catalogue(i: u64) -> Option<Vec<Action>> {
         6 => v.extend([a("stop"), a("go depth 1"), Action::WaitBestmove, a("stop")]),
         7 => v.extend([a("go movetime 1"), Action::WaitBestmove, a("go movetime 0"), Action::WaitBestmove]),
         8 => v.extend([a("go"), Action::DelaySteps(3), a("stop"), a("stop"), Action::WaitBestmove, a(other), a("go nodes 20"), Action::WaitBestmove]),
+        // a search ended by the clock (the time-management branch), then go at once
+        9 => v.extend([a("go wtime 40 btime 40"), Action::WaitBestmove, a("go depth 1"), Action::WaitBestmove]),
+        // a go during a search is refused; the stop that follows must still work
+        10 => v.extend([a("go infinite"), Action::DelaySteps(20), a("go depth 1"), Action::DelaySteps(5), a("stop"), Action::WaitBestmove, a("go depth 1"), Action::WaitBestmove]),
+        // ucinewgame during a search resets the position, not the search bookkeeping
+        11 => v.extend([a("go infinite"), Action::DelaySteps(20), a("ucinewgame"), Action::DelaySteps(5), a("stop"), Action::WaitBestmove, a("go nodes 30"), Action::WaitBestmove]),
         _ => return None,
     }
     v.push(a("isready"));
@@ -68,7 +74,7 @@ fn catalogue(i: u64) -> Option<Vec<Action>> {
 
 pub fn sweep_scripts(thorough: bool) -> u64 {
     if thorough {
-        27
+        36
     } else {
         SWEEP_QUICK
     }
